@@ -902,6 +902,14 @@ def c08(tier, seed):
         if i % 7 == 3 and rep.get("val") != "struct":
             rep["n"] = 1          # two Repeat phases sharing one actions map
         out.append(scenario("c08-%d-%s" % (i, "+".join(chosen)), {"body": body}, fl, tag={"actions": chosen, "inv": inv is not None}))
+    # a machine that is stuck for a while: nine actions never apply (they skip before drawing), the tenth draws and then often skips (a rejected step).
+    # Long stretches of rejected steps, each after a few actions skipped in place, are no reason to give up: the tenth action is able to run
+    for i in range(4 if tier == "quick" else 40):
+        actions = {"never%d" % j: [op("skip")] for j in range(9)}
+        actions["sometimes"] = [draw(IntRange(0, 9), "x", "x"), iff("x", "le", 5, [op("skip")]), op("incvar", var="n")]
+        body = [op("setvar", var=v, val="0") for v in ("n", "i")] + [{"op": "repeat", "actions": actions, "inv": [op("incvar", var="i")]}, draw(g("Bool"), "after")]
+        out.append(scenario("c08-stuck-awhile-%d" % i, {"body": body}, {"checks": 60, "seed": rng.randrange(1, 1 << 64), "steps": 300, "nofailfile": "true", "shrinktime": "0s"},
+                            tag={"actions": ["never x9", "sometimes"], "inv": True}))
     # arbitrary words through the fuzz entry
     for i in range(3 if tier == "quick" else 40):
         actions = {"a": sm_action("ok", rng), "b": sm_action("skipafter", rng), "c": sm_action("skipbefore", rng)}
